@@ -937,7 +937,10 @@ func ensurePathExists(pd *container, path string, options *ApplyOptions) error {
 				doc, err = target.intoDoc(options)
 
 				if err != nil {
-					return err
+					// An existing value that is not a container: there is nothing to create below
+					// it. The add that follows reports the unreachable path (ErrMissing), as it
+					// does without EnsurePathExistsOnAdd.
+					return nil
 				}
 			}
 		}
